@@ -636,7 +636,8 @@ def obligations(tier, build):
                               leverage="choice feasibility only; has_traits_setattro / setattr_delegate interpreted from the C source"))
     K = 2 if tier == "quick" else 3
     for cname in CLASSES:
-        firsts = [None] if tier == "quick" else [(a, b) for a in range(6) for b in range(len(NAMES[cname]))]
+        # partitioned by the first step (operation, name) in both tiers: one process per first step
+        firsts = [(a, b) for a in range(6) for b in range(len(NAMES[cname]))]
         for first in firsts:
             obs.append(Obligation("policy/%s/k=%d%s" % (cname, K, "" if first is None else "/first=%d-%d" % first),
                                   policy_harness(cname, K, first), stubs=STUBS,
